@@ -46,18 +46,23 @@ def _worker(job):
     t = time.time()
     res = dict(name=job['name'], status='inconclusive', cex=[], obligations=0, samples=[], stats={}, err=None)
     limit = int(getattr(_ENV.mod, 'JOB_TIMEOUT_S', {}).get(_ENV.tier, 300 if _ENV.tier == 'quick' else 3600))
+    # the budget is CPU time of this worker (so that a busy machine does not turn a passing job into an inconclusive
+    # one), with a wall-clock backstop of six times as much
     signal.signal(signal.SIGALRM, _alarm)
-    signal.setitimer(signal.ITIMER_REAL, limit, 5)
+    signal.signal(signal.SIGPROF, _alarm)
+    signal.setitimer(signal.ITIMER_PROF, limit, 5)
+    signal.setitimer(signal.ITIMER_REAL, 6 * limit, 5)
     try:
         r = _ENV.mod.run_job(_ENV, job)
         res.update(r)
     except JobTimeout:
-        res['err'] = 'Inconclusive: job exceeded its %d s budget (reported as a reduced bound, never as a pass)' % limit
+        res['err'] = 'Inconclusive: job exceeded its budget of %d s of CPU time (reported as a reduced bound, never as a pass)' % limit
     except (Unsupported, Inconclusive) as e:
         res['err'] = '%s: %s' % (type(e).__name__, e)
     except Exception:
         res['err'] = traceback.format_exc()
     finally:
+        signal.setitimer(signal.ITIMER_PROF, 0)
         signal.setitimer(signal.ITIMER_REAL, 0)
     res['wall'] = time.time() - t
     return res
